@@ -8,6 +8,7 @@
 #ifndef N
 #define N 16
 #endif
+extern const char *g_in0;
 static int cv_in_reject(char c) { return c == '"' || c == '\\' || c == '\r' || c == '\n' || c == '\t'; }
 size_t strcspn(const char *s, const char *reject)
 {
@@ -15,8 +16,51 @@ size_t strcspn(const char *s, const char *reject)
                      reject[5] == 0, "strcspn stub: only the reject set \"\\\\\\r\\n\\t is modelled");
     size_t l;
     __CPROVER_assume(l < N);
+#ifdef CV_STRCSPN_ABS
+    /* same sentence, written over the absolute (constant) indices of the harness' input string g_in0 (s = g_in0 + o): the
+     * quantifier body then reads constant positions instead of N symbolic ones (much smaller formula for large N) */
+    __CPROVER_assert(__CPROVER_same_object(s, g_in0) && s >= g_in0, "model: strcspn model: the scanned string lies in the input string of the harness");
+    const size_t o = (size_t)(s - g_in0);
+    __CPROVER_assume(__CPROVER_forall { size_t k; (k < N) ==> ((k >= o && k < o + l) ==> (g_in0[k] != 0 && g_in0[k] != '"' && g_in0[k] != '\\' && g_in0[k] != '\r' && g_in0[k] != '\n' && g_in0[k] != '\t')) });
+#else
     __CPROVER_assume(__CPROVER_forall { size_t k; (k < N) ==> (k < l ==> (s[k] != 0 && s[k] != '"' && s[k] != '\\' && s[k] != '\r' && s[k] != '\n' && s[k] != '\t')) });
+#endif
     __CPROVER_assert(__CPROVER_r_ok(s, l + 1), "strcspn stub: the scanned segment and its stop byte lie inside the object");
     __CPROVER_assume(s[l] == 0 || cv_in_reject(s[l]));
     return l;
 }
+
+#ifdef CV_MEMCPY_MODEL
+/* Contract model of memcpy for the loop-invariant target qs_proof (log_quoted_string copies each strcspn segment with memcpy,
+ * with a symbolic length, inside the loop that carries the loop contract; CBMC's own memcpy model did not finish there).
+ * Over-approximation of C99 7.21.2.1: both regions are asserted valid and disjoint; afterwards the model remembers NOTHING
+ * about the destination object except the (at most) three bytes the ghost-index claims look at -- out[g-1], out[g], out[g+1] --
+ * which get exactly what memcpy gives them (the source byte if inside [dst, dst+n), their old value otherwise); every other
+ * byte of the object is arbitrary afterwards. The frame "bytes outside the range are unchanged" is thus kept for the ghost
+ * bytes only, which is all the invariant and the postconditions use (guard byte out[g], neighbours of out[g]).
+ * Contents as a whole: bounded target qs_bounded and the complete per-byte lemma qs_unit.
+ * The destination must lie in the harness' output buffer g_out0: asserted as "model:", any other use is undecided. */
+extern size_t g;
+extern char *g_out0;
+void *memcpy(void *dst, const void *src, size_t n)
+{
+    char *d = (char *)dst;
+    const char *s = (const char *)src;
+    __CPROVER_assert(__CPROVER_same_object(d, g_out0) && d >= g_out0 && __CPROVER_OBJECT_SIZE(g_out0) == 2 * N,
+                     "model: memcpy model: the destination lies in the 2*N-byte output buffer of the harness");
+    const size_t off = (size_t)(d - g_out0);
+    __CPROVER_assert(__CPROVER_w_ok(d, n), "memcpy contract: the destination range is writable");
+    __CPROVER_assert(__CPROVER_r_ok(s, n), "memcpy contract: the source range is readable");
+    __CPROVER_assert(!__CPROVER_same_object(d, s), "memcpy contract: the regions do not overlap (different objects)");
+    const _Bool have0 = g >= 1 && g - 1 < 2 * N, have1 = g < 2 * N, have2 = g + 1 < 2 * N && g + 1 != 0;
+    char keep0, keep1, keep2;                       /* what memcpy leaves in out[g-1], out[g], out[g+1] */
+    if (have0) keep0 = (g - 1 >= off && g - 1 < off + n) ? s[g - 1 - off] : g_out0[g - 1];
+    if (have1) keep1 = (g >= off && g < off + n) ? s[g - off] : g_out0[g];
+    if (have2) keep2 = (g + 1 >= off && g + 1 < off + n) ? s[g + 1 - off] : g_out0[g + 1];
+    __CPROVER_havoc_object(g_out0);                 /* forget the whole buffer ... */
+    if (have0) g_out0[g - 1] = keep0;               /* ... except the ghost bytes */
+    if (have1) g_out0[g] = keep1;
+    if (have2) g_out0[g + 1] = keep2;
+    return dst;
+}
+#endif
